@@ -341,6 +341,16 @@ Proof.
   - rewrite F1, F3. cbn [set_sets sets sidx]. apply (exact_replace did _ _ d ds1 _ S Eg1). reflexivity.
 Qed.
 
+Lemma store_add_key_IdInv s dr tok : IdInv s -> IdInv (fst (store_add_key s dr tok)).
+Proof.
+  intros H. unfold store_add_key. destruct (ref_set s dr) as [h|]; [|exact H].
+  destruct (get_set s h) as [d|] eqn:Hd; [|exact H].
+  assert (Eid : d_id (fst (dset_add_key d tok)) = d_id d) by (unfold dset_add_key; destruct (ref_key d (ById tok)); reflexivity).
+  destruct (dset_add_key d tok) as [d' r]. cbn [fst] in *. destruct H as [A R S].
+  constructor; cbn [set_sets anns ress sets aidx ridx sidx]; [exact A|exact R|].
+  apply (exact_replace did _ _ h d d' S Hd). unfold did. rewrite Eid. reflexivity.
+Qed.
+
 Theorem step_IdInv s o : IdInv s -> IdInv (fst (step s o)).
 Proof.
   intros H. destruct o; cbn [step].
@@ -354,6 +364,7 @@ Proof.
   - apply rm_key_IdInv, H.
   - apply rm_resource_IdInv, H.
   - apply rm_dataset_IdInv, H.
+  - apply store_add_key_IdInv, H.
 Qed.
 
 Theorem reachable_IdInv : forall ops, IdInv (run ops).
